@@ -11,6 +11,13 @@ from .interp import Obligation, Frame
 from .values import is_symbolic
 
 
+class LemmaInstance:
+    """use of a lemma: `pre` is proved where the lemma is invoked (an obligation), then `claim` is assumed"""
+
+    def __init__(self, name, pre, claim):
+        self.name, self.pre, self.claim = name, pre, claim
+
+
 class Lemma:
     def __init__(self, name, params, claim, ind, base, requires=(), uses=()):
         self.name = name
@@ -29,10 +36,36 @@ class Lemma:
         cl = interp.eval_spec(self.claim, fr)
         prez = [ops.z3bool(p) if is_symbolic(p) else z3.BoolVal(bool(p)) for p in pre]
         clz = ops.z3bool(cl) if is_symbolic(cl) else z3.BoolVal(bool(cl))
-        return ops.mk(z3.Implies(z3.And(prez), clz) if prez else clz, 'bool')
+        # an implication claim  H -> C  is split: H joins the hypotheses to be proved at the point of use
+        if z3.is_implies(clz):
+            prez.append(clz.arg(0))
+            clz = clz.arg(1)
+        return LemmaInstance(self.name, z3.And(prez) if prez else z3.BoolVal(True), clz)
 
     def proof_obligations(self, interp):
         obs = []
+        if self.ind is None:
+            # direct theorem over the contracts/lemmas: requires /\ used lemma instances |- claim
+            interp.reset([])
+            env = {p: interp.fresh_typed(p, ty) for p, ty in self.params.items()}
+            fr = Frame(None, env, spec=True, ns={})
+            for r in self.requires:
+                v = interp.eval_spec(r, fr)
+                interp.assume(ops.z3bool(v) if is_symbolic(v) else bool(v))
+            for u in self.uses:
+                v = interp.eval_spec(u, fr)
+                if isinstance(v, LemmaInstance):
+                    pre = z3.simplify(v.pre)
+                    if not z3.is_true(pre):
+                        obs.append(Obligation('lemma.%s.use.%s.pre' % (self.name, v.name), list(interp.pc), pre, 'lemma', 'lemma:' + self.name, 0, [], (), u))
+                        interp.assume(pre)
+                    interp.assume(v.claim)
+                else:
+                    interp.assume(ops.z3bool(v) if is_symbolic(v) else bool(v))
+            goal = interp.eval_spec(self.claim, fr)
+            g = ops.z3bool(goal) if is_symbolic(goal) else z3.BoolVal(bool(goal))
+            obs.append(Obligation('lemma.%s.direct' % self.name, list(interp.pc), g, 'lemma', 'lemma:' + self.name, 0, [], (), self.claim))
+            return obs
         for phase in ('base', 'step'):
             interp.reset([])
             env = {}
@@ -62,7 +95,10 @@ class Lemma:
                     interp.assume(ops.z3bool(v) if is_symbolic(v) else bool(v))
                 for u in self.uses:
                     v = interp.eval_spec(u, fr2)
-                    interp.assume(ops.z3bool(v) if is_symbolic(v) else bool(v))
+                    if isinstance(v, LemmaInstance):
+                        interp.assume(z3.Implies(v.pre, v.claim))
+                    else:
+                        interp.assume(ops.z3bool(v) if is_symbolic(v) else bool(v))
                 goal = interp.eval_spec(self.claim, fr2)
             g = ops.z3bool(goal) if is_symbolic(goal) else z3.BoolVal(bool(goal))
             obs.append(Obligation('lemma.%s.%s' % (self.name, phase), list(interp.pc), g, 'lemma', 'lemma:' + self.name,
